@@ -189,16 +189,48 @@ func c17Main(args []string) int {
 	})
 }
 
+// c17Em spells the px lengths of a translate function in em of a 2px font
+func c17Em(f c17Fn) string {
+	e := func(v int) string { return fmt.Sprintf("%gem", float64(v)/2) }
+	switch f.K {
+	case "translate":
+		return fmt.Sprintf("translate(%s, %s)", e(f.A), e(f.B))
+	case "translate1":
+		return fmt.Sprintf("translate(%s)", e(f.A))
+	case "translateX":
+		return fmt.Sprintf("translateX(%s)", e(f.A))
+	case "translateY":
+		return fmt.Sprintf("translateY(%s)", e(f.A))
+	}
+	return c17CSS(f)
+}
+
 func c17Css(s *c17Scn, line []byte, out *drv.Out) {
+	// variant 1: the transform is declared in a rule shared with an earlier element of another font size, its lengths in
+	// em (the computed value of one element must not leak into the other: the declaration is one object)
+	shared := out.Cur%3 == 1
 	var parts []string
 	for _, f := range s.Fns {
-		parts = append(parts, c17CSS(f))
+		if shared {
+			parts = append(parts, c17Em(f))
+		} else {
+			parts = append(parts, c17CSS(f))
+		}
 	}
 	style := fmt.Sprintf("width:%dpx;height:%dpx;margin:%dpx 0 0 %dpx;transform:%s", s.Box[2], s.Box[3], s.Box[1], s.Box[0], strings.Join(parts, " "))
 	if s.Origin != "" {
 		style += ";transform-origin:" + s.Origin
 	}
 	html := `<html><head><style>@page{size:200px 200px;margin:0} html,body{margin:0;padding:0;display:block} div{display:block}</style></head><body><div style="` + style + `"></div></body></html>`
+	if shared {
+		decl := "transform:" + strings.Join(parts, " ")
+		if s.Origin != "" {
+			decl += ";transform-origin:" + s.Origin
+		}
+		html = `<html><head><style>@page{size:200px 200px;margin:0} html,body{margin:0;padding:0;display:block} div{display:block} .t{` + decl + `}</style></head><body>` +
+			`<div class="t" style="font-size:8px;position:absolute;width:1px;height:1px"></div>` +
+			fmt.Sprintf(`<div class="t" style="font-size:2px;width:%dpx;height:%dpx;margin:%dpx 0 0 %dpx"></div></body></html>`, s.Box[2], s.Box[3], s.Box[1], s.Box[0])
+	}
 	_, r, err := drv.Render(html, &drv.Opts{})
 	if err != nil {
 		out.Fatal("render: " + err.Error())
@@ -213,6 +245,9 @@ func c17Css(s *c17Scn, line []byte, out *drv.Out) {
 	}
 	out.Count("css")
 	out.Sample(map[string]interface{}{"style": style, "want": s.Want})
+	if shared && len(got) == 2 {
+		got = got[1:] // (the first call belongs to the earlier element sharing the rule)
+	}
 	if len(got) != 1 {
 		out.Disagree("css-transform-call-count:"+c17Kinds(s.Fns), fmt.Sprintf("expected exactly one Transform call for the box, got %d (%s)", len(got), style),
 			map[string]interface{}{"scenario": json.RawMessage(line), "html": html, "got": got})
@@ -229,16 +264,13 @@ func c17Svg(s *c17Scn, line []byte, out *drv.Out) {
 	for _, f := range s.Fns {
 		parts = append(parts, c17SVG(f))
 	}
-	// alternate separators between functions: space / comma+space
-	sep := " "
-	if len(s.Fns)%2 == 0 {
-		sep = ", "
-	}
+	// the separators SVG allows between functions: white space and / or one comma
+	sep := []string{" ", ", ", ",", " , ", "\n", "\n\t, ", "  "}[out.Cur%7]
 	src := `<svg xmlns="http://www.w3.org/2000/svg" width="100" height="100"><rect x="1" y="2" width="3" height="4" transform="` + strings.Join(parts, sep) + `"/></svg>`
 	img, err := svg.Parse(strings.NewReader(src), "", nil, nil)
 	if err != nil {
 		k := "svg-parse-rejected:" + c17Kinds(s.Fns)
-		if sep == ", " {
+		if strings.Contains(sep, ",") {
 			k = "svg-comma-separated-list-rejected"
 		}
 		out.Disagree(k, "svg.Parse rejects a valid transform list: "+err.Error(), map[string]interface{}{"scenario": json.RawMessage(line), "svg": src})
